@@ -9,6 +9,7 @@ import (
 	"encoding/json"
 	"fmt"
 	"os"
+	"runtime/debug"
 	"sort"
 	"strconv"
 	"strings"
@@ -63,6 +64,8 @@ type Run struct {
 	vio      map[string]*Violation
 	caseN    int
 	crumb    string
+	crumbF   *os.File
+	crumbLen int
 	resume   string
 }
 
@@ -161,7 +164,21 @@ func (r *Run) Crumb(c any) {
 		return
 	}
 	b, _ := json.Marshal(c)
-	_ = os.WriteFile(r.crumb, b, 0o644)
+	// one open handle, rewritten in place: cheap enough to leave a crumb before every case of a
+	// multi-million-case grid (a fatal runtime error - stack overflow, concurrent map write - kills
+	// the worker without running any deferred code)
+	if r.crumbF == nil {
+		f, err := os.OpenFile(r.crumb, os.O_CREATE|os.O_RDWR|os.O_TRUNC, 0o644)
+		if err != nil {
+			return
+		}
+		r.crumbF = f
+	}
+	_, _ = r.crumbF.WriteAt(b, 0)
+	if len(b) < r.crumbLen {
+		_ = r.crumbF.Truncate(int64(len(b)))
+	}
+	r.crumbLen = len(b)
 }
 
 func (r *Run) Logf(f string, a ...any) {
@@ -231,6 +248,8 @@ func Main(t *testing.T, checks map[string]Check) {
 	if tier == "" {
 		tier = "quick"
 	}
+	// runaway recursion in the code under test must die quickly, not after eating 1 GB per worker
+	debug.SetMaxStack(64 << 20)
 	r := &Run{T: t, Tier: tier, Shard: atoi("VERIF_SHARD", 0), NShards: atoi("VERIF_NSHARDS", 1), Seed: atoi("VERIF_SEED", 0),
 		start: time.Now(), distinct: map[string]bool{}, states: map[string]bool{}, vio: map[string]*Violation{}, crumb: os.Getenv("VERIF_CRUMB")}
 	r.R = &Result{Property: prop, Tier: tier, Shard: r.Shard, NShards: r.NShards, Exhaustive: true,
